@@ -132,7 +132,7 @@ def established(port):
 
 
 def c15_scenario(bins, idx, kill_point, flt, rng, cancel=False):
-    """cancel: `app` exits non-zero 1.3 s after its sibling `app2` has printed on both streams; `app2` is still running and is
+    """cancel: `app` exits non-zero 2.6 s (five flush periods) after its sibling `app2` has printed on both streams; `app2` is still running and is
     cancelled. What was stored of the cancelled task's output must not depend on the listener either."""
     targets = [{"path": "app"}, {"path": "app2"}, {"path": "lib", "uses": ["app", "app2"] if cancel else ["app"]}]
     fx = fixture.Fixture(bins, targets)
@@ -144,7 +144,7 @@ def c15_scenario(bins, idx, kill_point, flt, rng, cancel=False):
                          {"op": "touch", "path": "%s-printed1-%s" % (tag, t)}]
                 if cancel:
                     if t == "app":
-                        steps += [{"op": "wait", "paths": ["%s-go" % tag], "timeout_ms": 8000}, {"op": "sleep", "ms": 1300}, {"op": "exit", "code": 3}]
+                        steps += [{"op": "wait", "paths": ["%s-go" % tag], "timeout_ms": 8000}, {"op": "sleep", "ms": 2600}, {"op": "exit", "code": 3}]
                     else:
                         steps += [{"op": "out", "text": "%s out 2\n" % t}, {"op": "out", "stream": "stderr", "text": "%s err 2\n" % t},
                                   {"op": "sleep", "ms": 30000}, {"op": "exit", "code": 0}]
